@@ -89,6 +89,10 @@ CHECKS = {
    technique="exhaustive single-fault enumeration (every file-system call and every admin-API call of the real update handlers failed in turn) over payloads x endpoints x initial disk states, plus stateless schedule exploration (preemption-bounded DFS) of probe transactions against a running update",
    text="The real handleConfiguration / handleApplyFlows handlers of a real HandlingDataManager are driven in-process. For 2 initial disk states x 14 payloads (valid, undecodable, failing validation, adding/changing/removing files in every section) x 2 endpoints, a fault-free run numbers the os calls of config/gateway_file_system.go (routed through a fault shim) and the HAProxy admin-API calls; every one of them is then failed in turn (a failed write leaves half the content). Oracle: a non-2xx answer leaves the directory tree byte-identical and the verdicts of 6 probe transactions unchanged; a 2xx answer makes the serving engine agree with a fresh engine built from the files on disk; the serving engine never panics or disappears. Schedules: two probe transactions against one running update (3 payloads x 2 endpoints), all interleavings at sync operations with <=1 preemption (2 thorough): each probe verdict is the old or the new configuration's, never an empty or partial engine's.",
    note="single faults only (a second fault inside the rollback cannot be survived by an in-place rollback); faults at the os calls of gateway_file_system.go (filepath.Walk and the readers of streams.NewStream use the real file system); admin API = in-process RoundTripper; transactions read the engine pointer exactly like routing.processRequest; refused payload in the schedule scenarios fails at YAML parsing so that Go map order does not change the schedule tree; known finding: a fault inside Restore itself"),
+ "C04": dict(level="exploration", engine="seqx-product", design="§3 C04",
+   technique="bounded-exhaustive enumeration of flow graphs x inputs through a real engine, with a recording wrapper around every processor factory; the executed-processor sequence is compared with an independent reference walker",
+   text="Family A: every request graph over <=3 probe processors (root + forward connections, <=2 ordered connections per node over conditions {none,a} (thorough {none,a,b}), stream-end connections anywhere in the list) x 3 response shapes x every output choice per processor including 'answers the request itself'; family B: the same graph family as the response direction; family C: 2-3 user flows on nested URL patterns x 4 quota sets (system flows with the real QuotaProcessorInc/Dec) x every subset of processors answering early. Each configuration is rendered to YAML, loaded into a real streams.Stream and driven through the request and response entry points; every processor execution emits an event (flow, key, direction, output). Oracle: the event sequence equals the reference walk (declared order, exactly the connections whose condition equals the output, nothing after an early response, response path continuing from the answering processor's response connection), system flows precede user flows on requests, user and system flows run in reverse order on responses.",
+   note="probe processors (output chosen by the harness) stand in for the processor vocabulary; flow-to-flow references are not generated; acyclic forward graphs only (C05 covers the rest); the order between different user flows on the request is observed, not prescribed"),
 }
 NA_REASON = "check not built yet in this round (work in progress; planned per DESIGN.md §3)"
 def main():
